@@ -62,7 +62,7 @@ class C18(SimpleProperty):
             "answers are compared as sets with the model and with expand_all(compress(u)) of the real converter; plus "
             "30 Accept headers built from the RFC 7231 grammar (supported, synonym and unsupported media types, q-values "
             "with up to 3 decimals, optional whitespace around ',' and ';') for handle_header. Non-trivial = a URI "
-            "whose record has at least two URI prefixes.")
+            "whose record has at least two URI prefixes. URIs include non-ASCII IRIs and percent-escapes; 40 % of the graphs / apps are built from a converter that is still being curated and answer every query once before it acquires the remaining records and synonyms; q-values include 0, media ranges (application/*, text/*) occur, and 8 headers per case are also sent through Flask GET / POST and FastAPI GET, whose Content-Type must be handle_header's answer.")
     assumptions = ["rdflib's SPARQL parser / evaluator and the VALUES re-ordering are exercised, not modelled",
                    "FastAPI POST cannot run in this sandbox (python-multipart is not installed and not in the wheelhouse); a stub "
                    "module lets the router be built so that FastAPI GET is exercised; FastAPI POST is not covered",
